@@ -11,9 +11,18 @@ S2 == [host |-> "h1", path |-> Svc]
 S3 == [host |-> "",   path |-> Svc \o <<"UnaryCall">>]
 \* a method path that collides with a service a grpc.Server may register itself: routed like any other
 S4 == [host |-> "h1", path |-> <<"grpc.health.v1.Health">>]
+\* a route whose host is a glob pattern
+S5 == [host |-> "*.beta.c16.test", path |-> Svc]
 MCSlots2 == {S1, S2}
-MCSlotsH == {S1, S2, S4}
-MCSlots4 == {S1, S2, S3, S4}
+MCSlotsH == {S1, S2, S4, S5}
+MCSlots4 == {S1, S2, S3, S4, S5}
+\* dsthost spellings: exact, other letter case, with the default port, matched by the glob route only, no route
+MCHostOf(h) ==
+    CASE h = "" -> {""}
+      [] h \in {"h1", "H1", "h1:80"} -> {"h1"}
+      [] h = "x.beta.c16.test" -> {"*.beta.c16.test"}
+      [] OTHER -> {}
+MCOddHosts == {"H1", "h1:80", "x.beta.c16.test"}
 MCSlots3 == {S1, S2, S3}
 MCBackends == {"b1", "b2"}
 
@@ -79,7 +88,10 @@ CodesQuick == {0, 5, 14, 42}
 MCCallsFull  == AllKinds({"", "h1", "h2"}, {"none", "one", "multi"}, {"none", "set", "send"}, {"none", "some"}, Codes,
                          {"eager", "echo", "late"})
                 \cup Health({"", "h1"}, {"one"}, {"none", "set"}, {"some"}, {0, 13, 14})
+                \cup Unary(MCOddHosts, {"one", "multi"}, {"set"}, {"some"}, {0, 14})
+                \cup {c \in Bidi(MCOddHosts, {"one"}, {"send"}, {"some"}, {0}, {"echo"}) : ~c.early /\ Len(c.reqs) = 1 /\ Len(c.resps) = 1}
 MCCallsQuick == AllKinds({"", "h1"}, {"none", "multi"}, {"none", "set"}, {"some"}, CodesQuick, {"eager", "echo", "late"})
+                \cup Unary(MCOddHosts, {"one"}, {"set"}, {"some"}, {0})
                 \cup Health({"", "h1"}, {"one"}, {"none", "set"}, {"some"}, {0, 14})
 \* history universe: what matters for routing and the pool (who is called, does it reach a backend)
 MCCallsHist  == Unary({"", "h1", "h2"}, {"one"}, {"set"}, {"some"}, {0})
